@@ -146,6 +146,38 @@ def run_fixed_index(rec, S):
         rec.finding(R, "F2.f/field-order", "record_field/emit_fields do not keep the first-assignment order the compile-time field indices are taken from", loc=L(COMPILER, (rf or c)["line"]))
 
 
+def run_declare_define(rec, S):
+    R = rec.rule("F2.d", "every define_variable is given the SymbolState that the matching declare_variable returned (a captured variable gets EmptyBox at declare and FillBox at define: a literal state un-pairs them), except for compiler-internal hidden variables and module-level import bindings")
+    from ..facts import walk_expr
+    fns = compiler_fns(S)
+    n = 0
+    for name, f in fns.items():
+        declared_states = set()
+        for node in walk_expr(f["body"]):
+            if node.get("s") == "let" and node.get("init") is not None and "declare_variable" in synq.src(node["init"]) and node["pat"].get("p") == "tuple":
+                el = node["pat"]["elems"]
+                if el and el[0].get("p") == "ident":
+                    declared_states.add(el[0]["name"])
+        for ev in synq.events(f):
+            if ev.kind != "call" or ev.name != "define_variable" or len(ev.node["args"]) < 2:
+                continue
+            n += 1
+            nm, st = ev.node["args"][0], ev.node["args"][1]
+            ss = synq.src(st)
+            if st.get("e") == "path" and st["p"] in declared_states:
+                ok, how = True, "state from declare_variable"
+            elif ss.startswith("SymbolState::"):
+                hidden = nm.get("e") == "path" and re.match(r"^[A-Z_]+$", nm["p"]) is not None
+                module_import = ss == "SymbolState::ModuleInitialized" and name == "import"
+                ok, how = hidden or module_import, "literal %s for %s" % (ss, synq.src(nm))
+            else:
+                ok, how = False, "state expression %s" % ss
+            rec.inst(R, "%s: define_variable(%s)" % (name, synq.src(nm)[:30]), ok=ok, loc=L(COMPILER, ev.line), note=how)
+            if not ok:
+                rec.finding(R, "F2.d/%s/%s" % (name, re.sub(r"\W+", "_", synq.src(nm))[:30]), "%s defines the user variable %s with %s instead of the state its declare_variable returned: if the variable is captured, the box allocated at the declaration is never filled and every later local is one slot off" % (name, synq.src(nm), how), loc=L(COMPILER, ev.line), fn=name)
+    rec.floor(R, "define_variable call sites", n, 9)
+
+
 def run_known_class_receiver(rec, S):
     R = rec.rule("F2.f-recv", "property_get/property_set are given a class (which enables compile-time field offsets) only where the object on the stack is `self` itself: under `primary.is_self() && trailers.len() == 1`, the `is_self` flag of the first trailer, or the `@field` form")
     from ..facts import walk_expr
@@ -216,6 +248,67 @@ def run_known_class_receiver(rec, S):
             if not reset:
                 rec.finding(R, "F2.f-recv/%s/flag-not-reset" % name, "%s passes `%s` to access() for every trailer of a chain without clearing it after the first one: `self.a.x` would use the enclosing class's offset for `x` on the object `self.a`" % (name, flag["p"]), loc=L(COMPILER, ev.line), fn=name)
     rec.floor(R, "trailer loops passing an is_self flag", m, 1)
+
+
+def run_scoped_state(rec, S, fields=("try_attributes", "loop_attributes", "class_attributes")):
+    """The compiler tracks 'which try / loop / class encloses the code being compiled' in Option fields
+    that every construct saves on entry and restores on exit (nesting)."""
+    R = rec.rule("F2.scope", "every Compiler method that installs a new try/loop/class attribute record saves the enclosing one (replace/take/copy into a local) and its last write to the field restores exactly that saved value: after a nested construct the enclosing try's PopHandler obligations (early return/break/continue) are still known; try_ restores before compiling the catch clauses")
+    fns = compiler_fns(S)
+    n = 0
+    for name, f in sorted(fns.items()):
+        body = f.get("body") or {}
+        writes = []   # (line, field, rhs expr, kind)
+        saves = {}    # field -> set of local names holding the enclosing value
+        from ..facts import walk_expr
+
+        def is_self_field(e, fld=None):
+            return isinstance(e, dict) and e.get("e") == "field" and synq.src(e.get("base")) == "self" and (fld is None or e.get("f") == fld) and e.get("f") in fields
+
+        def visit_stmts(stmts):
+            for st in stmts:
+                if st.get("s") == "let" and st.get("init") is not None and st["pat"].get("p") == "ident":
+                    init = st["init"]
+                    if init.get("e") == "mcall" and init.get("m") in ("replace", "take") and is_self_field(init.get("recv")):
+                        saves.setdefault(init["recv"]["f"], set()).add(st["pat"]["name"])
+                        writes.append((st["line"], init["recv"]["f"], init, "save-" + init["m"]))
+                    elif is_self_field(init):
+                        saves.setdefault(init["f"], set()).add(st["pat"]["name"])
+                    elif init.get("e") == "call" and synq.src(init.get("f")).endswith("mem::replace") and init.get("args") and init["args"][0].get("e") == "ref" and is_self_field(init["args"][0].get("a")):
+                        fld = init["args"][0]["a"]["f"]
+                        saves.setdefault(fld, set()).add(st["pat"]["name"])
+                        writes.append((st["line"], fld, init, "save-replace"))
+        for x in walk_expr(body):
+            if isinstance(x, dict) and "stmts" in x and isinstance(x["stmts"], list):
+                visit_stmts(x["stmts"])
+        for x in walk_expr(body):
+            if isinstance(x, dict) and x.get("e") == "assign" and is_self_field(x.get("a")):
+                writes.append((x["line"], x["a"]["f"], x["b"], "assign"))
+            elif isinstance(x, dict) and x.get("e") == "mcall" and x.get("m") in ("replace", "take", "insert") and is_self_field(x.get("recv")):
+                if not any(w[2] is x for w in writes):
+                    writes.append((x["line"], x["recv"]["f"], x, "unsaved-" + x["m"]))
+        for fld in fields:
+            ws = sorted([w for w in writes if w[1] == fld], key=lambda w: w[0])
+            if not ws:
+                continue
+            n += 1
+            last = ws[-1]
+            saved = saves.get(fld, set())
+            ok = bool(saved) and last[3] == "assign" and last[2].get("e") == "path" and last[2].get("p") in saved
+            # every other write must be the save itself
+            ok = ok and all(w[3].startswith("save-") for w in ws[:-1])
+            rec.inst(R, "%s: %s saved in %s, restored last" % (name, fld, sorted(saved)), ok=ok, loc=L(COMPILER, last[0]))
+            if not ok:
+                rec.finding(R, "F2.scope/%s/%s" % (name, fld), "Compiler::%s writes self.%s but does not restore the enclosing value it displaced (writes: %s): after this construct the compiler no longer knows its enclosing %s, so e.g. an early return/break/continue inside an outer try emits no PopHandler and a stale handler stays on the fiber" % (name, fld, ", ".join("%s@%d" % (w[3], w[0]) for w in ws), fld.split("_")[0]), loc=L(COMPILER, last[0]), fn=name)
+            if name == "try_" and ok:
+                calls = [x for x in walk_expr(body) if isinstance(x, dict) and x.get("e") == "mcall" and synq.src(x.get("recv")) == "self" and x.get("m") in ("catch", "scope")]
+                catch_lines = [c["line"] for c in calls if c["m"] == "catch"]
+                scope_lines = [c["line"] for c in calls if c["m"] == "scope"]
+                ok2 = bool(catch_lines) and bool(scope_lines) and min(scope_lines) < last[0] < min(catch_lines) and ws[0][0] < min(scope_lines)
+                rec.inst(R, "try_: install < try block < restore < catch clauses", ok=ok2, loc=L(COMPILER, last[0]))
+                if not ok2:
+                    rec.finding(R, "F2.scope/try_/order", "Compiler::try_ does not keep its TryAttributes installed exactly while the protected block is compiled (install, block, restore, then the catch clauses): exits from the wrong region pop (or fail to pop) this try's handler", loc=L(COMPILER, last[0]), fn="try_")
+    rec.floor(R, "save/restore sites of compiler nesting state", n, 3)
 
 
 def run_handlers(rec, S, F):
